@@ -52,6 +52,15 @@ Fixpoint list_eqb {A} (e : A -> A -> bool) (a b : list A) : bool :=
   | _, _ => false
   end.
 
+(* a key with byte-string string tags: (timestamp, metric, sparse tags, sparse string tags) *)
+Definition sarr_of (l : list (Z * list Z)) : list (list Z) :=
+  map (fun i => match find (fun p => fst p =? Z.of_nat i) l with Some p => snd p | None => [] end)
+      (seq 0 (Z.to_nat max_tags)).
+Inductive brow := BK (ts metric : Z) (tags : list (Z * Z)) (stags : list (Z * list Z)).
+Definition bkey_of (r : brow) : bkey :=
+  let 'BK ts metric tags stags := r in
+  {| b_ts := ts; b_metric := metric; b_tags := arr_of tags; b_stags := sarr_of stags |}.
+
 (* ---------- observations ---------- *)
 
 (* a MultiValue on the aggregator: ItemValue, the Add calls its digest holds unprocessed (None = nil), HLL digest *)
@@ -98,7 +107,11 @@ Inductive case :=
 | CXfer (ts metric : Z) (tags stags : list (Z * Z)) (tail : mvs) (top : list (Z * mvs)) (sf : Q) (hasp : bool) (bt ah : Z)
         (o_mask : Z) (o_topmasks : list Z)
         (o_ts o_warn : Z) (o_tags o_stags : option (list (Z * Z)))  (* None = as sent *)
-        (o_err : Z) (o_tail : aobs) (o_top : list (Z * aobs)).
+        (o_err : Z) (o_tail : aobs) (o_top : list (Z * aobs))
+(* the rows of one second as the aggregator files them: keys in arrival order; observed: the bytes of the real
+   Key.MarshalAppend of every key, and for every row the index of the first row that got the same *MultiItem from
+   MultiItemMap.GetOrCreateMultiItem(&k, nil, keyBytes of k.XXHash) *)
+| CBucket (rows : list brow) (o_bytes : list (list Z)) (o_first : list Z).
 
 Definition ok_with (fx : bool) (c : case) : bool :=
   match c with
@@ -124,11 +137,23 @@ Definition ok_with (fx : bool) (c : case) : bool :=
                              | None => false
                              end) o_top
       end
+  | CBucket _ _ _ => false
   end.
 
 (* placeholder for rows that are checked by the Go-side oracles only *)
 Definition CSkip : case := CBuild [] [] (VObs 0 0 0 0 0 0 0 0 false) UN.
 
-Definition ok (c : case) : bool := if ok_with false c then true else ok_with true c.
+(* observed bytes are printed with runs of zero bytes folded: a negative number -n stands for n zero bytes *)
+Definition expand (l : list Z) : list Z := flat_map (fun x => if x <? 0 then repeat 0 (Z.to_nat (- x)) else [x]) l.
+
+Definition ok_bucket (c : case) : bool :=
+  match c with
+  | CBucket rows o_bytes o_first =>
+      let ks := map bkey_of rows in
+      list_eqb (list_eqb Z.eqb) (map marshal_key ks) (map expand o_bytes) && list_eqb Z.eqb (file_rows ks []) o_first
+  | _ => false
+  end.
+
+Definition ok (c : case) : bool := if ok_bucket c then true else if ok_with false c then true else ok_with true c.
 
 Definition mism := mismatches ok.
